@@ -93,16 +93,22 @@ def lightFill1 (ck : Chunk) (ci : ChkInfo) : ChkInfo :=
 puts the old object back, so `lightFill`'s work on a copy of a known chunk is dropped); an unknown chunk starts
 as `{MinTs: MaxInt64, MaxTs: 0}` and goes through `lightFill`. Chunk ids are sorted and unique on both sides, so
 the two-pointer merge of `apply` is a look-up by id. -/
-def syncChunkB (drops : Bool) (old : List ChkInfo) (ck : Chunk) : ChkInfo :=
+def syncChunkC (drops dropFirst : Bool) (old : List ChkInfo) (ck : Chunk) : ChkInfo :=
   match old.find? (fun o => o.id == ck.id) with
   | some o =>
     -- `dropStale` (repair of F06, `drops`): the chunk holds more records than the entry accounts for — it has grown since
-    -- the hull was taken (a snapshot from before a crash) — so the entry is dropped and the chunk handled as unknown
-    if drops && decide (o.recs < ck.recs.length) then lightFill1 ck ⟨ck.id, maxInt64, 0, 0, 0⟩ else o
+    -- the hull was taken (a snapshot from before a crash) — so the entry is dropped and the chunk handled as unknown.
+    -- `dropFirst`: the drop comes before the hull copy `apply(sc, true)`; were the hull copied first, the new entry
+    -- would carry the stale hull (no root, `Recs` 0) and `lightFill` would skip it (`MaxTs > 0`)
+    if drops && decide (o.recs < ck.recs.length) then
+      (if dropFirst then lightFill1 ck ⟨ck.id, maxInt64, 0, 0, 0⟩ else lightFill1 ck ⟨ck.id, o.minTs, o.maxTs, 0, 0⟩)
+    else o
   | none => lightFill1 ck ⟨ck.id, maxInt64, 0, 0, 0⟩
 
+def syncChunkB (drops : Bool) (old : List ChkInfo) (ck : Chunk) : ChkInfo := syncChunkC drops true old ck
+
 def syncChunk (old : List ChkInfo) (ck : Chunk) : ChkInfo :=
-  syncChunkB Logrange.Generated.C07.syncChunksDropsStaleEntries old ck
+  syncChunkC Logrange.Generated.C07.syncChunksDropsStaleEntries Logrange.Generated.C07.syncChunksDropsStaleBeforeHullCopy old ck
 
 def syncChunks (old : List ChkInfo) (cks : List Chunk) : List ChkInfo := cks.map (syncChunk old)
 
@@ -118,7 +124,10 @@ def inRange (lo hi : Int) (t : Int) : Bool := decide (lo ≤ t) && decide (t ≤
 the range the look-up is C02's) -/
 def rangeVisible : List ChkInfo → List Chunk → Int → Int → List Int
   | h :: hs, ck :: cks, lo, hi =>
-    (if hullHits h lo hi then ck.recs.filter (inRange lo hi) else []) ++ rangeVisible hs cks lo hi
+    -- a7caf30 (`selectorOpensChunkAheadOfIndex`): a chunk that holds more records than the index accounts for stays wholly
+    -- open, the range is applied record by record
+    (if (Logrange.Generated.C07.selectorOpensChunkAheadOfIndex && decide (h.recs < ck.recs.length)) || hullHits h lo hi
+      then ck.recs.filter (inRange lo hi) else []) ++ rangeVisible hs cks lo hi
   | _, _, _, _ => []
 
 /-- SPEC: the flushed events whose timestamp is in range -/
